@@ -286,11 +286,25 @@ def run(chk, facts, tier, only=None):
                 if b.get("k") == "mcall" and b["m"] == "clone":
                     assigned = expr_path(b["recv"])
         hints = []
-        for m in nodes(h["body"], "match"):
-            lits = [lit_value(a["body"]) for a in m["arms"]]
-            if "unit" in lits:
-                sc = unblock(m["scrut"])
-                hints.append(expr_path(sc["recv"]) if sc.get("k") == "mcall" and sc["m"] in ("as_ref", "deref") else expr_path(sc))
+        from shared import with_local_callees
+        for g, via in with_local_callees(c, h):
+            for m in nodes(g["body"], "match"):
+                lits = [lit_value(a["body"]) for a in m["arms"]]
+                if "unit" in lits:
+                    sc = unblock(m["scrut"])
+                    hp = expr_path(sc["recv"]) if sc.get("k") == "mcall" and sc["m"] in ("as_ref", "deref") else expr_path(sc)
+                    if via is not None and hp:
+                        # the match sits in a helper: read its parameter as the argument passed at the call in variant_seed
+                        names = [(prm or {}).get("n") for prm in g.get("params") or []]
+                        args = list(via.get("args") or [])
+                        root = hp.split(".", 1)[0]
+                        if root in names and names.index(root) < len(args):
+                            a = args[names.index(root)]
+                            while isinstance(a, dict) and a.get("k") in ("ref", "un"):
+                                a = a.get("e") or a.get("a")
+                            ap = expr_path(a)
+                            hp = (ap + hp[len(root):]) if ap else hp
+                    hints.append(hp)
         if assigned is None or len(hints) != 1:
             raise AnchorMissing(f"variant_seed: assignment of de.expect_type ({assigned}) or the accessor-hint match ({hints}) not found")
         chk.expect(hints[0] == assigned, "variant-hint:same-type-as-accessor-test",
